@@ -43,7 +43,7 @@ def struct_signal(name, seed):
     t = np.arange(N) / N
     cols = []
     for j in range(ncol):
-        f = (9.3, 4.1, 2.2)[j] * (1 + 0.07 * (seed % 4))
+        f = ((9.3, 4.1, 2.2)[j] if j < 3 else 2.0 + 0.9 * j) * (1 + 0.07 * (seed % 4))
         ph = 2 * np.pi * f * t + 0.7 * j
         a = 1.0 / (j + 1)
         if kind == 'fm':
@@ -65,6 +65,10 @@ def cases(tier, seed):
                 for m in METHODS:
                     for sr in SRS:
                         yield ('struct', (N, ncol, kind), m, sr, seed)
+    # larger scope: many IMF columns at once - every column must come out as if it had been transformed alone
+    for ncol in (17, 33):
+        for m in METHODS:
+            yield ('wide', (256, ncol, 'plain'), m, 128.0, seed)
     for N in b['Ns'][:2]:
         for kind in ('plain', 'am', 'fm'):
             for m in METHODS:
@@ -94,7 +98,7 @@ def decode_case(c):
 
 
 def check_case(case):
-    return {'trip': check_trip, 'struct': check_struct, 'acc': check_acc, 'struct3d': check_struct3d, 'typed': check_typed}[case[0]](case)
+    return {'trip': check_trip, 'struct': check_struct, 'acc': check_acc, 'struct3d': check_struct3d, 'typed': check_typed, 'wide': check_wide}[case[0]](case)
 
 
 def check_trip(case):
@@ -204,12 +208,31 @@ def check_struct(case):
     return Outcome(cls='struct', transitions=trans, viols=viols, nontrivial=ncol > 1)
 
 
+def check_wide(case):
+    from emd.spectra import frequency_transform
+    _, name, m, sr, seed = case
+    X = struct_signal(name, seed)
+    tag = 'signal with %d columns method=%s' % (X.shape[1], m)
+    try:
+        allc = [np.asarray(a) for a in frequency_transform(X.copy(), sr, m)]
+    except Exception as e:
+        return Outcome(cls='wide', viols=[('wide:raise:%s' % type(e).__name__, '%s raised %r' % (tag, e))])
+    viols = []
+    for j in sorted(set([0, 1, 15, 16, X.shape[1] - 2, X.shape[1] - 1])):
+        one = [np.asarray(a) for a in frequency_transform(X[:, j:j + 1].copy(), sr, m)]
+        for nm_, a, b in zip(('phase', 'frequency', 'amplitude'), allc, one):
+            if a.shape != X.shape or not np.allclose(a[:, j], b[:, 0], rtol=1e-9, atol=1e-9):
+                viols.append(('wide:column', '%s: %s of column %d differs from transforming that column alone' % (tag, nm_, j)))
+                break
+    return Outcome(cls='wide', transitions=7, viols=viols, nontrivial=True)
+
+
 def check_typed(case):
     """Integer- and float32-typed IMFs (e.g. raw ADC counts): same answer as for the float64 array of the same values."""
     from emd.spectra import frequency_transform
     from emd.utils import amplitude_normalise
     _, name, m, sr, seed = case
-    Xf = np.round(struct_signal(name, seed) * 50.0)
+    Xf = np.round(struct_signal(name, seed) * (50.0 if name[0] == 64 else 3000.0))      # 3000: squares overflow int16
     viols = []
     trans = 0
     tag = 'signal %r (rounded to whole numbers) method=%s' % (name, m)
@@ -330,6 +353,6 @@ def snippet(case, kind):
 
 
 def nonvacuity(rep, ctx):
-    if not {'trip', 'struct', 'acc', 'struct3d', 'typed'} <= set(rep.classes):
+    if not {'trip', 'struct', 'acc', 'struct3d', 'typed', 'wide'} <= set(rep.classes):
         return ['vacuous: outcome classes %r' % dict(rep.classes)]
     return []
